@@ -403,6 +403,9 @@ func (c *Ctx) c07List(t *c07Type) listResult {
 							form = "bcdtime"
 						case strings.Contains(b.Op, "Trim"):
 							form = "fill"
+							if b.Cut == nil || *b.Cut != "\x00" {
+								form = "trim with another cut set"
+							}
 						}
 						s = b.From
 						continue
